@@ -37,6 +37,12 @@ def generate(rng: random.Random, tier: str):
                       'perm': rng.choice(['random', 'random', 'reverse', 'all']), 'seed': rng.randrange(1 << 30)})
     for _ in range(20 if thorough else 6):
         cases.append({'kind': 'pulseq', 'zero_axis': rng.choice(['none', 'z', 'zy']), 'seed': rng.randrange(1 << 30)})
+    for _ in range(30 if thorough else 8):  # rescaling glue against M.pulseqTraj: extents and encoding sizes that differ between the directions
+        cases.append({'kind': 'pulseq', 'zero_axis': rng.choice(['none', 'z', 'z', 'zy']), 'cartesian': rng.random() < 0.6,
+                      'enc': [rng.choice([1, 2, 4, 5, 8]), rng.choice([3, 4, 6, 12, 16]), rng.choice([4, 6, 8, 12, 32])],
+                      'n_k0': rng.choice([4, 6, 8]), 'n_ro': rng.randint(2, 6), 'dx': rng.choice(['1/4', '1', '5', '32']),
+                      'dy': rng.choice(['1/8', '1', '5', '3/2']), 'dz': rng.choice(['1/2', '2', '7']), 'noise': rng.random() < 0.5,
+                      'seed': rng.randrange(1 << 30)})
     return cases
 
 
@@ -270,23 +276,45 @@ def run_load(case, drv) -> Outcome:
                                                    f'flags:{case["struct_flags"]}', f'orders:{len(ords)}'], sample={**case, 'n_readouts': len(allacq), 'orders_tried': len(ords)})
 
 
+def _pulseq_positions(case):
+    """sequence k-space positions (exact dyadic rationals as Fractions) per direction, sample-major within a readout"""
+    rng = random.Random(case['seed'])
+    n_k0, n_ro = case.get('n_k0', 4), case.get('n_ro', 3)
+    enc = case.get('enc', [4, 6, 8])  # z, y, x
+    if case.get('cartesian', False):
+        n_k0 = min(n_k0, enc[2])  # steps 0 .. n_k0-1 of enc_x: the premise of pulseqAxis_cartesian_steps is step < n
+    steps = {'x': list(range(n_k0)), 'y': None, 'z': None}
+    pos = {}
+    # readout direction: sample j of every readout at dx * (j - n_k0/2)
+    dx = Fraction(case.get('dx', '5'))
+    pos['x'] = [dx * (Fraction(j) - Fraction(enc[2], 2)) for j in range(n_k0)] * n_ro if case.get('cartesian', False) else \
+        [Fraction(-10) + Fraction(20 * j, max(n_k0 - 1, 1)).limit_denominator(64) for j in range(n_k0)] * n_ro
+    for ax, e, d in (('y', enc[1], Fraction(case.get('dy', '5'))), ('z', enc[0], Fraction(case.get('dz', '2')))):
+        if ax in case['zero_axis']:
+            noise = case.get('noise', rng.random() < 0.5)
+            vals = [Fraction(rng.randrange(-1000, 1000), 10 ** 15) if noise else Fraction(0) for _ in range(n_ro)]
+        elif case.get('cartesian', False):
+            st = [0] + [rng.randrange(e) for _ in range(n_ro - 1)]
+            rng.shuffle(st)
+            steps[ax] = st
+            vals = [d * (Fraction(i) - Fraction(e, 2)) for i in st]
+        else:
+            vals = [d * Fraction(rng.randrange(-64, 65), 16) for _ in range(n_ro)]
+        pos[ax] = [v for v in vals for _ in range(n_k0)]
+    return n_k0, n_ro, enc, pos, steps
+
+
 def run_pulseq(case, drv) -> Outcome:
-    """the rescaling glue of KTrajectoryPulseq with pypulseq replaced by a stub sequence (its k-space calculation is a parameter)"""
+    """the rescaling glue of KTrajectoryPulseq with pypulseq replaced by a stub sequence (its k-space calculation is a parameter):
+    correspondence with `M.pulseqTraj`, and for Cartesian sequences the property itself - a readout lies at the phase
+    encoding step it was played out for, whatever the extents of the other directions"""
     import importlib
 
     mod = importlib.import_module('mrpro.data.traj_calculators.KTrajectoryPulseq')
     from mrpro.data import SpatialDimension
 
-    rng = random.Random(case['seed'])
-    n_k0, n_ro = 4, 3
-    k = np.zeros((3, n_k0 * n_ro))
-    k[0] = np.tile(np.linspace(-10, 10, n_k0), n_ro)
-    if 'y' not in case['zero_axis']:
-        k[1] = np.repeat(np.linspace(-5, 5, n_ro), n_k0)
-    elif rng.random() < 0.5:
-        k[1] = 1e-12 * np.array([rng.uniform(-1, 1) for _ in range(n_k0 * n_ro)])  # numerically zero axis
-    if case['zero_axis'] == 'none':
-        k[2] = np.repeat(np.linspace(-2, 2, n_ro), n_k0)
+    n_k0, n_ro, enc, pos, steps = _pulseq_positions(case)
+    k = np.array([[float(v) for v in pos['x']], [float(v) for v in pos['y']], [float(v) for v in pos['z']]])
 
     class FakeSeq:
         def read(self, file_path):
@@ -298,7 +326,7 @@ def run_pulseq(case, drv) -> Outcome:
     class Hdr:
         class acq_info:  # noqa: N801
             number_of_samples = torch.full((n_ro, 1), n_k0)
-        encoding_matrix = SpatialDimension(4, 6, 8)
+        encoding_matrix = SpatialDimension(*enc)
 
     orig = mod.pp.Sequence
     mod.pp.Sequence = FakeSeq
@@ -306,8 +334,8 @@ def run_pulseq(case, drv) -> Outcome:
         st, tr = call(lambda: mod.KTrajectoryPulseq('dummy.seq')(Hdr))
     finally:
         mod.pp.Sequence = orig
-    viol = None
-    cfg = f'pulseq stub zero axes {case["zero_axis"]}'
+    viol = corr = None
+    cfg = f'pulseq stub zero axes {case["zero_axis"]} enc(z,y,x) {enc} n_k0 {n_k0} readouts {n_ro} {"cartesian" if case.get("cartesian") else "generic"} steps dx {case.get("dx", "5")} dy {case.get("dy", "5")} dz {case.get("dz", "2")}'
     if st != 'ok':
         viol = {'signature': 'pulseq:raises', 'what': f'{cfg}: raises {tr}'}
     else:
@@ -318,7 +346,34 @@ def run_pulseq(case, drv) -> Outcome:
             for name, t, src in (('kz', tr.kz, k[2]), ('ky', tr.ky, k[1]), ('kx', tr.kx, k[0])):
                 if np.abs(src).max() < 1e-9 and float(t.abs().max()) > 1e-3:
                     viol = viol or {'signature': 'pulseq:zero-axis-amplified', 'what': f'{cfg}: axis {name} is (numerically) zero in the sequence but is rescaled to amplitude {float(t.abs().max()):.3g}'}
-    return Outcome(key=('pulseq', case['zero_axis'], case['seed'] % 3), viol=viol, branches=[f'pulseq:{case["zero_axis"]}'], sample=case)
+            # correspondence with the Lean model M.pulseqTraj (exact rationals; the code works in float32)
+            m = drv.call({'op': 'pulseq_traj', 'kx': [str(v) for v in pos['x']], 'ky': [str(v) for v in pos['y']], 'kz': [str(v) for v in pos['z']],
+                          'nx': enc[2], 'ny': enc[1], 'nz': enc[0]})
+            for name, t in (('kz', tr.kz), ('ky', tr.ky), ('kx', tr.kx)):
+                want = [float(Fraction(q)) for q in m[name]]
+                got = [float(q) for q in t.reshape(-1)]
+                if tuple(t.shape) != (n_ro, n_k0):
+                    corr = corr or f'{cfg}: {name} has shape {tuple(t.shape)}, expected (readouts, samples) = {(n_ro, n_k0)}'
+                elif any(abs(g - w) > 1e-5 * (1 + abs(w)) for g, w in zip(got, want, strict=True)):
+                    bad = next(i for i, (g, w) in enumerate(zip(got, want, strict=True)) if abs(g - w) > 1e-5 * (1 + abs(w)))
+                    corr = corr or f'{cfg}: {name}[{bad}] = {got[bad]:.6g}, M.pulseqTraj gives {want[bad]:.6g}'
+            # the property for a Cartesian sequence: readout r lies at its phase encoding step (theorem pulseqAxis_cartesian_steps)
+            if case.get('cartesian'):
+                for name, t, ax, e in (('ky', tr.ky, 'y', enc[1]), ('kz', tr.kz, 'z', enc[0])):
+                    if steps[ax] is None:
+                        continue
+                    for r, i in enumerate(steps[ax]):
+                        if tuple(t.shape) == (n_ro, n_k0) and abs(float(t[r, 0]) - (i - e / 2)) > 1e-4 * e:
+                            viol = viol or {'signature': f'pulseq:cartesian-step:{name}',
+                                            'what': f'{cfg}: readout {r} was played out at phase encoding step {i} of {e} along {name[1]}, i.e. position {i - e / 2}, '
+                                                    f'but is placed at {name} = {float(t[r, 0]):.5g}'}
+                if tuple(tr.kx.shape) == (n_ro, n_k0):
+                    for j in range(n_k0):
+                        if abs(float(tr.kx[0, j]) - (j - enc[2] / 2)) > 1e-4 * enc[2]:
+                            viol = viol or {'signature': 'pulseq:cartesian-step:kx', 'what': f'{cfg}: sample {j} of {n_k0} is placed at kx = {float(tr.kx[0, j]):.5g}, expected {j - enc[2] / 2}'}
+    return Outcome(key=('pulseq', case['zero_axis'], bool(case.get('cartesian')), tuple(enc), case['seed'] % 3), viol=viol, corr=corr,
+                   branches=[f'pulseq:{case["zero_axis"]}', f'pulseq-cartesian:{bool(case.get("cartesian"))}',
+                             f'pulseq-square:{len(set(enc)) == 1}'], sample=case)
 
 
 def run(case, drv) -> Outcome:
